@@ -569,4 +569,206 @@ theorem stack_template_deep (D d : Nat) (h4 : 4 ≤ D) :
   rw [hf, (down_frames (d + 1) _).1]
   simp [Cx.root]
 
+/-! ### the ghost fields are erasable -/
+
+/-- the same context with other ghost values -/
+def Cx.withGhost (c : Cx) (f p b : Nat) : Cx := { c with frames := f, path := p, blocks := b }
+def Ev.core (e : Ev) : Ev := { e with frames := 0, path := 0, blocks := 0 }
+/-- a result with the ghost fields of its events erased -/
+def Res.core (r : Res) : Res := ⟨r.evs.map Ev.core, r.st, r.out⟩
+
+theorem Res.core_eq {a b : Res} (h : a.core = b.core) : a.st = b.st ∧ a.out = b.out ∧ a.evs.map Ev.core = b.evs.map Ev.core := by
+  simp only [Res.core, Res.mk.injEq] at h
+  exact ⟨h.2.1, h.2.2, h.1⟩
+
+theorem seq_core {a a' : Res} {b b' : St → Res} (ha : a.core = a'.core) (hb : ∀ s, (b s).core = (b' s).core) :
+    (seq a b).core = (seq a' b').core := by
+  obtain ⟨h1, h2, h3⟩ := Res.core_eq ha
+  unfold Recur.seq
+  rw [h2, h1]
+  split
+  · obtain ⟨g1, g2, g3⟩ := Res.core_eq (hb a'.st)
+    simp only [Res.core, List.map_append, h3, g1, g2, g3]
+  · exact ha
+
+set_option maxHeartbeats 1000000 in
+theorem ghost_all (E : Env) :
+    (∀ c s n, ∀ f p b, (render E (c.withGhost f p b) s n).core = (render E c s n).core) ∧
+    (∀ c s ns, ∀ f p b, (bodyLoop E (c.withGhost f p b) s ns).core = (bodyLoop E c s ns).core) ∧
+    (∀ c s body k, ∀ f p b, (iter E (c.withGhost f p b) s body k).core = (iter E c s body k).core) ∧
+    (∀ c s ns, ∀ f p b, (renderList E (c.withGhost f p b) s ns).core = (renderList E c s ns).core) := by
+  apply render.mutual_induct E
+    (motive1 := fun c s n => ∀ f p b, (render E (c.withGhost f p b) s n).core = (render E c s n).core)
+    (motive2 := fun c s ns => ∀ f p b, (bodyLoop E (c.withGhost f p b) s ns).core = (bodyLoop E c s ns).core)
+    (motive3 := fun c s body k => ∀ f p b, (iter E (c.withGhost f p b) s body k).core = (iter E c s body k).core)
+    (motive4 := fun c s ns => ∀ f p b, (renderList E (c.withGhost f p b) s ns).core = (renderList E c s ns).core)
+  -- 1 probe
+  · intro c s id f p b
+    simp only [render, Cx.withGhost, Res.core, List.map, Ev.core]
+  -- 2 blk
+  · intro c s k body ih f p b
+    simp only [render]
+    exact ih (f + k.frames) p (b + 1)
+  -- 3-5 forn
+  · intro c s body f p b; simp only [render, ↓reduceIte]
+  · intro c s n body hn hs f p b
+    have hs' : (c.withGhost f p b).scope > E.depth := hs
+    simp only [render, hn, hs, hs', if_false, dite_true]
+  · intro c s n body hn hs ih f p b
+    have hs' : ¬ (c.withGhost f p b).scope > E.depth := hs
+    simp only [render, hn, hs, hs', if_false, dite_false]
+    exact ih (f + kBlock) p (b + 1)
+  -- 6-10 include
+  · intro c s name h f p b
+    have h' : (c.withGhost f p b).noInclude = true := h
+    simp only [render, h, h', if_true]
+  · intro c s name h hl f p b
+    have h' : ¬ (c.withGhost f p b).noInclude = true := h
+    simp only [render, hl]; rw [if_neg h, if_neg h']
+  · intro c s name h body hl hs f p b
+    have h' : ¬ (c.withGhost f p b).noInclude = true := h
+    have hs' : (c.withGhost f p b).scope > E.depth := hs
+    simp only [render, hl, hs, hs', dite_true]; rw [if_neg h, if_neg h']
+  · intro c s name h body hl hs hs2 f p b
+    have h' : ¬ (c.withGhost f p b).noInclude = true := h
+    have hs' : ¬ (c.withGhost f p b).scope > E.depth := hs
+    have hs2' : (c.withGhost f p b).scope + 1 > E.depth := hs2
+    simp only [render, hl, hs, hs', hs2, hs2', dite_true, dite_false]; rw [if_neg h, if_neg h']
+  · intro c s name h body hl hs hs2 ih f p b
+    have h' : ¬ (c.withGhost f p b).noInclude = true := h
+    have hs' : ¬ (c.withGhost f p b).scope > E.depth := hs
+    have hs2' : ¬ (c.withGhost f p b).scope + 1 > E.depth := hs2
+    simp only [render, hl, hs, hs', hs2, hs2', dite_false]; rw [if_neg h, if_neg h']
+    exact ih (f + kPartial) (p + 1) b
+  -- 11-14 render
+  · intro c s name hl f p b; simp only [render, hl]
+  · intro c s name body hl h f p b
+    have h' : (c.withGhost f p b).copyDepth > E.depth := h
+    simp only [render, hl, h, h', dite_true]
+  · intro c s name body hl h h4 f p b
+    have h' : ¬ (c.withGhost f p b).copyDepth > E.depth := h
+    simp only [render, hl, h, h', h4, dite_false, if_true]
+  · intro c s name body hl h h4 ih f p b
+    have h' : ¬ (c.withGhost f p b).copyDepth > E.depth := h
+    simp only [render, hl, h, h', h4, dite_false, if_false]
+    obtain ⟨g1, g2, g3⟩ := Res.core_eq (ih (f + kPartial) (p + 1) b)
+    simp only [Res.core, Cx.copied, Cx.withGhost] at *
+    rw [g2, g3]
+  -- 15 macro
+  · intro c s name body f p b; simp only [render]
+  -- 16-18 call
+  · intro c s name hl f p b; simp only [render, hl]
+  · intro c s name body hl h f p b
+    have h' : (c.withGhost f p b).copyDepth > E.depth := h
+    simp only [render, hl, h, h', dite_true]
+  · intro c s name body hl h ih f p b
+    have h' : ¬ (c.withGhost f p b).copyDepth > E.depth := h
+    simp only [render, hl, h, h', dite_false]
+    obtain ⟨g1, g2, g3⟩ := Res.core_eq (ih (f + kCall) (p + 1) b)
+    simp only [Res.core, Cx.copied, Cx.withGhost] at *
+    rw [g2, g3]
+  -- 19-23 extends
+  · intro c s parent hl f p b
+    have hl' : lookup E.templates (c.withGhost f p b).tname = none := hl
+    simp only [render, hl, hl']
+  · intro c s parent body hl st' e hb f p b
+    have hl' : lookup E.templates (c.withGhost f p b).tname = some body := hl
+    simp only [render, hl, hl', hb]
+  · intro c s parent body hl st' base hb hs f p b
+    have hl' : lookup E.templates (c.withGhost f p b).tname = some body := hl
+    have hs' : (c.withGhost f p b).scope > E.depth := hs
+    simp only [render, hl, hl', hb, hs, hs', dite_true]
+  · intro c s parent body hl st' base hb hs r e hr ih f p b
+    have hl' : lookup E.templates (c.withGhost f p b).tname = some body := hl
+    have hs' : ¬ (c.withGhost f p b).scope > E.depth := hs
+    simp only [render, hl, hl', hb, hs, hs', dite_false]
+    have hr' : (bodyLoop E { c with scope := c.scope + 1, frames := c.frames + kPartial, path := c.path + 1 }
+        { s with stacks := st' } base).out = .err e := hr
+    obtain ⟨g1, g2, g3⟩ := Res.core_eq (ih (f + kPartial) (p + 1) b)
+    simp only [Cx.withGhost] at g1 g2 g3 ⊢
+    rw [hr'] at g2
+    simp only [hr', g2]
+    simp only [Res.core, g1, g3]
+  · intro c s parent body hl st' base hb hs r hr ih f p b
+    have hl' : lookup E.templates (c.withGhost f p b).tname = some body := hl
+    have hs' : ¬ (c.withGhost f p b).scope > E.depth := hs
+    simp only [render, hl, hl', hb, hs, hs', dite_false]
+    obtain ⟨g1, g2, g3⟩ := Res.core_eq (ih (f + kPartial) (p + 1) b)
+    simp only [Cx.withGhost] at g1 g2 g3 ⊢
+    rw [g2]
+    split
+    · rename_i e he; exact absurd he (fun h => hr e h)
+    · simp only [Res.core, g1, g3]
+  -- 24-28 block
+  · intro c s name body h f p b
+    have h' : (c.withGhost f p b).noBlock = true := h
+    simp only [render, h, h', if_true]
+  · intro c s name body h hl hs f p b
+    have h' : ¬ (c.withGhost f p b).noBlock = true := h
+    have hs' : (c.withGhost f p b).scope > E.depth := hs
+    simp only [render, hl, hs, hs', dite_true]; rw [if_neg h, if_neg h']
+  · intro c s name body h hl hs ih f p b
+    have h' : ¬ (c.withGhost f p b).noBlock = true := h
+    have hs' : ¬ (c.withGhost f p b).scope > E.depth := hs
+    simp only [render, hl, hs, hs', dite_false]; rw [if_neg h, if_neg h']
+    exact ih (f + kCall) (p + 1) b
+  · intro c s name body h d tail hl hc f p b
+    have h' : ¬ (c.withGhost f p b).noBlock = true := h
+    have hc' : (c.withGhost f p b).copyDepth > E.depth := hc
+    simp only [render, hl, hc, hc', dite_true]; rw [if_neg h, if_neg h']
+  · intro c s name body h d tail hl hc ih f p b
+    have h' : ¬ (c.withGhost f p b).noBlock = true := h
+    have hc' : ¬ (c.withGhost f p b).copyDepth > E.depth := hc
+    simp only [render, hl, hc, hc', dite_false]; rw [if_neg h, if_neg h']
+    obtain ⟨g1, g2, g3⟩ := Res.core_eq (ih (f + kCall) (p + 1) b)
+    simp only [Res.core, Cx.copied, Cx.withGhost] at *
+    rw [g1, g2, g3]
+  -- 29-34 bodyLoop
+  · intro c s f p b; simp only [bodyLoop]
+  · intro c s n ns r hr ih1 ih2 f p b
+    have hr' : (render E c s n).out = .ok := hr
+    obtain ⟨g1, g2, g3⟩ := Res.core_eq (ih1 f p b)
+    have ih2' : ∀ f p b, (bodyLoop E (c.withGhost f p b) (render E c s n).st ns).core = (bodyLoop E c (render E c s n).st ns).core := ih2
+    obtain ⟨k1, k2, k3⟩ := Res.core_eq (ih2' f p b)
+    rw [bodyLoop, bodyLoop]
+    simp only [g2, hr', g1]
+    simp only [Res.core, List.map_append, g3, k1, k2, k3]
+  · intro c s n ns r hr ih1 f p b
+    have hr' : (render E c s n).out = .stop := hr
+    obtain ⟨g1, g2, g3⟩ := Res.core_eq (ih1 f p b)
+    rw [bodyLoop, bodyLoop]
+    simp only [g2, hr']
+    simp only [Res.core, g1, g3]
+  · intro c s n ns r hr ih1 f p b
+    have hr' : (render E c s n).out = .err .assertion := hr
+    obtain ⟨g1, g2, g3⟩ := Res.core_eq (ih1 f p b)
+    rw [bodyLoop, bodyLoop]
+    simp only [g2, hr', if_true]
+    exact ih1 f p b
+  · intro c s n ns r a hr ha hlax ih1 ih2 f p b
+    have hr' : (render E c s n).out = .err a := hr
+    obtain ⟨g1, g2, g3⟩ := Res.core_eq (ih1 f p b)
+    have ih2' : ∀ f p b, (bodyLoop E (c.withGhost f p b) (render E c s n).st ns).core = (bodyLoop E c (render E c s n).st ns).core := ih2
+    obtain ⟨k1, k2, k3⟩ := Res.core_eq (ih2' f p b)
+    rw [bodyLoop, bodyLoop]
+    simp only [g2, hr', ha, hlax, if_false, if_true, g1]
+    simp only [Res.core, List.map_append, g3, k1, k2, k3]
+  · intro c s n ns r a hr ha hlax ih1 f p b
+    have hr' : (render E c s n).out = .err a := hr
+    obtain ⟨g1, g2, g3⟩ := Res.core_eq (ih1 f p b)
+    rw [bodyLoop, bodyLoop]
+    simp only [g2, hr', ha, hlax, if_false]
+    exact ih1 f p b
+  -- 35-36 iter
+  · intro c s body f p b; simp only [iter]
+  · intro c s body k ih1 ih2 f p b
+    simp only [iter]
+    exact seq_core (ih1 f p b) (fun s1 => ih2 s1 f p b)
+  -- 37-38 renderList
+  · intro c s f p b; simp only [renderList]
+  · intro c s n ns ih1 ih2 f p b
+    simp only [renderList]
+    exact seq_core (ih1 f p b) (fun s1 => ih2 s1 f p b)
+
+
 end LiquidVerif.Recur
